@@ -496,3 +496,62 @@ def c16_10(ctx, r):
     from .c03 import missing_flow
 
     missing_flow(ctx, r, "C16.10")
+
+
+@rule(P, "C16.11", "T8", "the node commands reach the compute node: every form of the serialised configuration carries the four lifecycle commands, and batches are cut from the full form", min_obligations=5)
+def c16_11(ctx, r):
+    """Compute nodes read node_setup_command / node_teardown_command from config_batch_<n>.json, which HpcSubmitter cuts from
+    `config.serialize()`.  Decided: JobConfiguration.serialize() stores the four commands unconditionally (whatever the `include` option), and
+    HpcSubmitter.__init__ takes its base from serialize() with the default option."""
+    sz = ctx.fn("JobConfiguration.serialize", "C16.11")
+    cfg = ctx.cfg(sz)
+    keys = ("setup_command", "teardown_command", "node_setup_command", "node_teardown_command")
+    for k in keys:
+        where = []
+        for n in cfg.nodes:
+            if n.kind != "stmt":
+                continue
+            a = n.ast
+            if isinstance(a, ast.Assign) and isinstance(a.value, ast.Dict) and any(isinstance(kk, ast.Constant) and kk.value == k for kk in a.value.keys):
+                where.append(n)
+            if isinstance(a, ast.Assign) and any(isinstance(t, ast.Subscript) and isinstance(t.slice, ast.Constant) and t.slice.value == k for t in a.targets):
+                where.append(n)
+        ok = bool(where) and any(not guard_forms(ctx, sz, n) for n in where)
+        r.check(ok, f"serialize() always carries {k}", key_of(sz, f"{k} serialised conditionally"), sz.loc(where[0].ast) if where else sz.loc(sz.node),
+                f"JobConfiguration.serialize() stores '{k}' only under {sorted(f for n in where for f, p in guard_forms(ctx, sz, n))} (or not at all): a configuration serialised with another option - the per-batch "
+                "configs, say - loses the command, and the nodes silently skip it", "on each node the node setup command runs before any job of the batch starts")
+    init = ctx.fn("HpcSubmitter.__init__", "C16.11")
+    st = [x for x in iter_own(init.node) if isinstance(x, ast.Assign) and any(isinstance(t, ast.Attribute) and t.attr == "_base_config" for t in x.targets)]
+    ok = len(st) == 1 and isinstance(st[0].value, ast.Call) and isinstance(st[0].value.func, ast.Attribute) and st[0].value.func.attr == "serialize" and not st[0].value.args and not st[0].value.keywords
+    r.check(ok, "batch configs are cut from config.serialize() (default form)", key_of(init, "batch base config form"), init.loc(st[0]) if st else init.loc(init.node),
+            f"HpcSubmitter builds its per-batch base from `{ctx.src(st[0].value) if st else None}`, not the default serialize(): fields of the configuration (the node commands among them) can be missing in every "
+            "config_batch_<n>.json", "with the documented environment variables ... on each node")
+
+
+@rule(P, "C16.12", "T10", "the obsolete per-node scripts shadow the node commands only when they are really set (non-empty): both sides test the same way", min_obligations=2)
+def c16_12(ctx, r):
+    """JobRunner.run_jobs: `if <legacy script>: run it  elif <node command> is not None: run the command`.  Submitter parameters are usually
+    written in TOML, which has no null - an unused option is written as "".  The legacy branch must therefore be taken on *truthiness*; a test
+    `is not None` treats "" as a script, builds the command " <config> <output>", tries to execute the configuration file and kills the node
+    before (setup) or after (teardown) the jobs, and the configured node command never runs.  Sibling agreement: the setup and the shutdown
+    side consult their option in the same way."""
+    fn = ctx.fn("JobRunner.run_jobs", "C16.12")
+    n = 0
+    from ..lib import inline_locals
+
+    for t in [x for x in iter_own(fn.node) if isinstance(x, ast.If)]:
+        tn = ctx.cfg(fn).nodes_of(t.test)
+        test = inline_locals(ctx, fn, t.test, tn[0]) if tn else t.test
+        txt = ctx.src(test)
+        core = test.left if isinstance(test, ast.Compare) else test.operand if isinstance(test, ast.UnaryOp) else test
+        which = core.attr if isinstance(core, ast.Attribute) and core.attr in ("node_setup_script", "node_shutdown_script") else None
+        if which is None:
+            continue
+        txt = txt.replace(ctx.src(core), which)
+        n += 1
+        ok = isinstance(test, ast.Attribute) and test.attr == which
+        r.check(ok, f"{which} shadows the node command only when non-empty", key_of(fn, f"{which} tested by `{txt}`"), fn.loc(t),
+                f"the legacy branch is taken under `{txt}`: an option written as \"\" (the way to say 'unset' in a TOML parameter file) counts as a script - the node tries to execute the configuration file, "
+                f"dies with PermissionError, and the configured node {'setup' if 'setup' in which else 'teardown'} command never runs", "on each node the node setup command runs before any job of the batch starts and the node teardown command after all its jobs ended")
+    if n != 2:
+        raise AnalysisError("C16.12", f"{n} legacy-script tests recognised in JobRunner.run_jobs")
